@@ -1,0 +1,44 @@
+//go:build verif
+
+package parser
+
+import (
+	"ti/context"
+	"ti/lexer/reader"
+)
+
+// Verification instrumentation (build tag verif).
+
+type VerifBudgetExceeded struct {
+	Kind  string
+	Count int
+}
+
+var (
+	// VerifReads counts Parser.Read calls of the current job.
+	VerifReads int
+	// VerifReadBudget: panic when exceeded (0 = off).
+	VerifReadBudget int
+	// VerifOnFatal, when set, receives every diagnostic handed to Parser.Fatal
+	// in every round (the binary itself keeps only the check round).
+	VerifOnFatal func(file string, row int, round string, msg string)
+)
+
+func VerifReset(budget int) {
+	VerifReads = 0
+	VerifReadBudget = budget
+}
+
+func verifTick(p *Parser) {
+	VerifReads++
+	reader.VerifResetStreak()
+	if VerifReadBudget > 0 && VerifReads > VerifReadBudget {
+		panic(VerifBudgetExceeded{Kind: "parser-reads", Count: VerifReads})
+	}
+}
+
+func verifFatal(p *Parser, ctx context.Context, err error) {
+	if VerifOnFatal != nil && err != nil {
+		VerifOnFatal(p.FileName, p.ErrorRow, ctx.GetRound(), err.Error())
+	}
+}
